@@ -21,7 +21,7 @@ import (
 func init() {
 	register(&explore.Prop{
 		ID: "C19", Level: levelFE, Explorer: "E3 environment-answer enumerator",
-		Rule: "file-backed segments (small mixed; 257-doc three-block; 1025-doc two-doc-value-chunk) whose segment.Data reads go through a fault-injecting io.ReaderAt; warm-up prefix = every sequence of <=1 (quick) / <=2 (thorough) read operations on the small segment, one fewer on each larger one, drawn from a 15-operation menu (incl. three operations that step a long-lived postings / dictionary iterator) (decides which caches are warm); then for the next operation X the storage fails at EVERY read index of X, persistently (every later read fails) or transiently (only that read); then EVERY follow-up operation of the menu runs, with the objects X left behind and with fresh objects; " +
+		Rule: "file-backed segments (small mixed; 257-doc three-block; 1025-doc two-doc-value-chunk) whose segment.Data reads go through a fault-injecting io.ReaderAt; warm-up prefix = every sequence of <=1 (quick) / <=2 (thorough) read operations on the small segment, one fewer on each larger one, drawn from a 18-operation menu (incl. three operations that step a long-lived postings / dictionary iterator) (decides which caches are warm); then for the next operation X the storage fails at EVERY read index of X, persistently (every later read fails) or transiently (only that read); then EVERY follow-up operation of the menu runs, with the objects X left behind and with fresh objects; " +
 			"oracle: X returns an error (what it delivered before is a prefix of the correct result), or an empty result, or the complete correct result; after X and after every follow-up the FST-cache mutex is free (a held mutex would block every later lookup), nothing panics; after a transient fault, follow-ups through fresh objects return the correct result or an error; distinct = (segment, prefix, X, read index, fault kind); non-trivial = the injected fault was actually hit",
 		Assumptions: []string{"the injector is installed by reflection into the struct of bluge_segment_api v0.2.0 (pinned in go.sum); harness only, ice untouched", "fail model: ReadAt returns (0, error)", "blocking is detected by the invariant 'mutex free between calls' (VerifMutexFree), not by timeouts; the 300 s per-case watchdog is a backstop"},
 		Budget:      qBudget, Run: runC19,
@@ -223,6 +223,62 @@ func c19Menu(n uint64) []c19Op {
 				emit("end")
 			} else {
 				emit(fmt.Sprintf("%q:%d", e.Term(), e.Count()))
+			}
+			return nil
+		}},
+		{"contains(a)", func(st *c19State, emit func(string)) error {
+			d, err := st.seg.Dictionary("a")
+			if err != nil {
+				return err
+			}
+			for _, k := range []string{"x", "nosuchterm", ""} {
+				ok, err := d.Contains([]byte(k))
+				if err != nil {
+					return err
+				}
+				emit(fmt.Sprintf("%q:%v", k, ok))
+			}
+			return nil
+		}},
+		{"dictRange(a)", func(st *c19State, emit func(string)) error {
+			d, err := st.seg.Dictionary("a")
+			if err != nil {
+				return err
+			}
+			it := d.Iterator(nil, []byte("a"), []byte("y"))
+			for {
+				e, err := it.Next()
+				if err != nil {
+					return err
+				}
+				if e == nil {
+					return nil
+				}
+				emit(fmt.Sprintf("%q:%d", e.Term(), e.Count()))
+			}
+		}},
+		{"count+advance(a,x)", func(st *c19State, emit func(string)) error {
+			d, err := st.seg.Dictionary("a")
+			if err != nil {
+				return err
+			}
+			pl, err := d.PostingsList([]byte("x"), nil, nil)
+			if err != nil {
+				return err
+			}
+			emit(fmt.Sprintf("count=%d", pl.Count()))
+			it, err := pl.Iterator(true, true, true, nil)
+			if err != nil {
+				return err
+			}
+			p, err := it.Advance(st.last)
+			if err != nil {
+				return err
+			}
+			if p == nil {
+				emit("end")
+			} else {
+				emit(fmt.Sprint(obs.CopyPosting(p)))
 			}
 			return nil
 		}},
